@@ -297,3 +297,13 @@ for (_k, _loc, _fn, _d) in _TSS_FUNCS:
                       funcs=[TSS_CPP + ": " + _fn], min_obligations=2,
                       doc="F: the worker identity accessor reads / replaces exactly the number of its own name"))
 META["trusted_base"] = list(META.get("trusted_base", [])) + ["specs/C11/tss.c: the thread_local thread_nums object is one C global (the view of one OS thread)"]
+
+
+# ---- operation_state::num_worker_threads (added by main after seeded change C11-9 was missed) ------------------------------------------------
+UNITS.append(Unit("bulk.op_state.num_worker_threads", "nwt.c", enforce="op_init_num_worker_threads",
+                  lifts={"body": Lift(BULK, r"std::size_t num_worker_threads =", fragment_end=r";", rules=[
+                      Sub(r"^\s*std::size_t num_worker_threads =", "self->num_worker_threads =", 1),
+                      Sub(r"\bscheduler\.get_thread_pool\(\)", "sched_get_thread_pool(&self->scheduler)", None),
+                      Call(r"(sched_get_thread_pool\(&self->scheduler\))->(get_\w+_count)", "pool_{h2}({h1})", None)])},
+                  funcs=[BULK + ": thread_pool_bulk_detail::operation_state (default member initialiser of num_worker_threads)"], min_obligations=3,
+                  doc="F: one per-worker queue per OS thread of the pool (the range of get_local_worker_thread_num)"))
